@@ -188,6 +188,11 @@ def r4_charge_token(ctx):
         if isinstance(s, ast.Assign) and isinstance(s.value, ast.Call) and call_name(s.value) == "_get_charge":
             chg = s.targets[0].id
     if chg is None:
+        gcs = [c for c in calls_in(blk) if call_name(c) == "_get_charge"]
+        discarded = [st_ for st_ in ast.walk(blk) if isinstance(st_, ast.Expr) and any(st_.value is c for c in gcs)]
+        if not gcs or len(discarded) == len(gcs):
+            ctx.violation(a, "charge-token", "the rendered charge must be computed from the integer that _get_charge returns (the written token may be '+2', '2+', '+', '++' ...); "
+                          "here its value is %s" % ("never asked for" if not gcs else "thrown away"), node=blk)
         raise AnalysisError("anchor vanished: chg = _get_charge(...) in _formula_to_format")
     results = {}
     for val in (-12, -3, -2, -1, 1, 2, 3, 12):
